@@ -71,12 +71,19 @@ class C19(Prop):
                 lines.append(f"fir {d} " + " ".join(map(str, xs))); meta.append(("fir", d, name, xs))
                 if 999999 not in xs:
                     lines.append(f"iir {d} " + " ".join(map(str, xs))); meta.append(("iir", d, name, xs))
+                    # the filter is linear: the same sequence at small amplitudes x / 2^k (a state flushed or clamped at some absolute
+                    # threshold is invisible at unit scale)
+                    for k in ((12, 30, 45, 70) if d == 0 else (12, 45, 70, 200)):
+                        if len(xs) <= 3000:
+                            lines.append(f"iirs {d} {k} " + " ".join(map(str, xs))); meta.append(("iirs", d, f"{name}/2^{k}", xs, k))
         impl = ctx.run_impl(exe, lines, "dsp")
         for ln in lines:
             ctx.count(ln, nontrivial=any(t not in ("0",) for t in ln.split()[2:]))
         if ctx.model_ok:
             model = ctx.run_model(lines)
-            for ln, a, b, (op, d, name, xs) in zip(lines, impl, model, meta):
+            for ln, a, b, mt in zip(lines, impl, model, meta):
+                op, d, name, xs = mt[:4]
+                scale = 2.0 ** (12 - mt[4]) if op == "iirs" else 1.0     # amplitude relative to the unit-scale streams
                 ctx.stat(f"{op}:{'double' if d else 'float'}:{name}")
                 if a == b:
                     ctx.stat("bit-exact")
@@ -85,7 +92,7 @@ class C19(Prop):
                 fa = [f_of_bits(int(x), d) for x in a.split()]
                 fb = [f_of_bits(int(x), d) for x in b.split()]
                 eps = 2.0 ** -52 if d else 2.0 ** -23
-                tol = 150 * eps * 3 * 15
+                tol = 150 * eps * 3 * 15 * scale
                 k = next((i for i, (p, q) in enumerate(zip(fa, fb)) if not abs(p - q) <= tol), None)
                 if k is None and len(fa) == len(fb):
                     ctx.stat("within-tolerance-not-bit-exact")
@@ -97,7 +104,7 @@ class C19(Prop):
         # use python floats in extended form: fractions)
         from fractions import Fraction
         taps = self.read_taps()
-        for (op, d, name, xs), a in zip(meta, impl):
+        for (op, d, name, xs, *_), a in zip(meta, impl):
             if op != "fir" or 999999 in xs or len(xs) > 700:
                 continue
             t = taps["rxTapsD" if d else "rxTapsF"]
